@@ -4,7 +4,7 @@
 # child process under a watchdog, post-processes race-detector logs, and relays the exit status:
 #   0 = property held on everything explored, 1 = VIOLATION line printed, 2 = harness error.
 set -u
-VERIF=${VERIF_ROOT:-/verif}
+VERIF=${VERIF_ROOT:-$(cd "$(dirname "$0")" && pwd)}
 REPO=${VERIF_REPO:-/repo}
 ID=${1:?usage: run.sh <Cxx> <quick|thorough> [--replay file]}
 TIER=${2:-${VERIF_TIER:-quick}}
